@@ -32,7 +32,7 @@ SNIPPETS = [
                         # positional after named, for every kind of positional expression
                         '{ F(a: 1, msg) }', '{ F(a: 1, msg.attr) }', '{ F(a: 1, -t) }', '{ F(a: 1, $v) }', '{ F(a: 1, G()) }',
                         '{ F(a: 1, { 1 }) }', '{ F(a: 1, "s") }', '{ -t(a: 1, b) }', '{ F(x, a: 1, b: 2, y) }', '{ F(a: 1, a: 1) }',
-                        '{ F(a: $v) }', '{ F(a: msg) }', '{ F(a: -t) }', '{ F(a: { 1 }) }', '{ F(: 1) }', '{ F(a 1) }', '{ F(1 2) }']),
+                        '{ F(a: $v) }', '{ F(a: msg) }', '{ F(a: -t) }', '{ F(a: { 1 }) }', '{ -t(a: msg) }', '{ F(a: G()) }', '{ F(a: msg.attr) }', '{ -t(a: -u) }', '{ F(: 1) }', '{ F(a 1) }', '{ F(1 2) }']),
     ('{ $n ->\n        [one] x\n       *[other] y\n    }', ['{ $n ->\n        [one] x\n       *other] y\n    }', '{ $n ->\n        [one] x\n       *\n    }',
                                                              '{ $n ->\n       *[one x\n    }', '{ $n ->\n       *[] x\n    }', '{ $n ->\n       *[one two] x\n    }',
                                                              '{ $n -> \n       *[-] x\n    }', '{ $n - >\n       *[a] x\n    }', '{ $n ->  *[a] x\n    }']),
